@@ -157,7 +157,10 @@ func FormatNumber(value float64, picture string, format DecimalFormat) (string, 
 			exponent--
 		}
 
-		for value >= maxMantissa {
+		// (A picture with more than 308 integer digits scales
+		// the value up to infinity, which no division brings
+		// back below the maximum.)
+		for value >= maxMantissa && !math.IsInf(value, 0) {
 			value /= 10
 			exponent++
 		}
